@@ -207,18 +207,88 @@ func resetObligations(w *World, ss *SpecSet, rc ResetCfg) (*FuncResult, error) {
 // accumulation (x += e, x = x || e, x = x && e, append-only slice read back only as a collection), or (c) loop-local;
 // and it reads no location that another iteration writes non-commutatively. Anything else is reported.
 
+var outputOrderOK map[string]string
+
 type commuteFinding struct {
 	pos  token.Pos
 	what string
 }
 
 func commuteObligations(w *World, ss *SpecSet, fn *ssa.Function) []*FuncResult {
-	res := &FuncResult{Name: "commute:" + fnFull(fn), Fn: fn}
+	// 1. the real encoding of the function, recording map writes under derived keys inside map ranges
 	e := newEnc(w, ss, fn)
-	res.Enc = e
+	e.sweep = false
+	e.recordCommute = true
+	res := &FuncResult{Name: "commute:" + fnFull(fn), Fn: fn, Enc: e}
+	func() {
+		defer func() {
+			if r := recover(); r != nil {
+				res.Errors = append(res.Errors, fmt.Sprintf("ENGINE-ERROR in %s: %v", fnFull(fn), r))
+			}
+		}()
+		e.translateAxioms()
+		fr := newFrame(fn, nil)
+		e.fr = fr
+		fr.cur = "true"
+		e.stack = []*ssa.Function{fn}
+		for _, p := range fn.Params {
+			e.value(p)
+		}
+		fr.entryMem = map[string]Term{}
+		e.initMem = fr.entryMem
+		// the function's preconditions hold for the iterations compared
+		if ct := w.contractFor(ss, fn); ct != nil {
+			fr.contract = ct
+			env := e.fnEnv(fr, e.mem)
+			env.oldMem = nil
+			for _, rq := range ct.Requires {
+				g, err := e.specBool(env, rq.E)
+				if err != nil {
+					e.contractError(fr, "requires: "+err.Error())
+					continue
+				}
+				e.assume(g)
+			}
+		}
+		e.run(fr, "true")
+		res.Errors = append(res.Errors, e.cerrs...)
+	}()
+	e.obls = nil
+	declName := regexp.MustCompile(`^\(declare-(?:const|fun) ([^ ]+) `)
+	for k, s := range e.commuteSites {
+		// second copy of the iteration: every symbol introduced since the start of the iteration is renamed
+		names := map[string]bool{}
+		for _, d := range e.decls[s.nd0:s.nd1] {
+			if m := declName.FindStringSubmatch(d); m != nil {
+				names[m[1]] = true
+			}
+		}
+		ren := func(t string) string {
+			return identRe.ReplaceAllStringFunc(t, func(id string) string {
+				if names[id] {
+					return id + "_B"
+				}
+				return id
+			})
+		}
+		var extra strings.Builder
+		for _, d := range e.decls[s.nd0:s.nd1] {
+			extra.WriteString(ren(d) + "\n")
+		}
+		for _, d := range e.defs[s.nf0:s.nf1] {
+			extra.WriteString("(assert " + ren(d) + ")\n")
+		}
+		goal := fmt.Sprintf("(=> (and %s (not (= %s %s)) (= %s %s)) (= %s %s))", ren(s.at), s.rk, ren(s.rk), s.key, ren(s.key), s.val, ren(s.val))
+		o := &Obligation{Name: fmt.Sprintf("%s/commute.L%d#%d", fnFull(fn), s.ord, k+1), Class: "commute", Fn: fnFull(fn), Goal: goal, At: s.at,
+			NDecl: s.nd1, NDef: s.nf1, Extra: extra.String(),
+			Text: "two iterations of the map range that write the same entry (" + s.text + ") write the same value: the result does not depend on the iteration order"}
+		o.Pos = w.Prog.Fset.Position(s.pos)
+		e.obls = append(e.obls, o)
+		res.Obls = append(res.Obls, o)
+	}
+	// 2. effect analysis of every map range: other writes must be loop-local, keyed by the range key, or accumulations
 	fr := newFrame(fn, nil)
 	fr.analyzeLoops()
-	n := 0
 	var heads []*ssa.BasicBlock
 	for h := range fr.loopHead {
 		heads = append(heads, h)
@@ -236,19 +306,21 @@ func commuteObligations(w *World, ss *SpecSet, fn *ssa.Function) []*FuncResult {
 		if next == nil {
 			continue
 		}
-		n++
 		body := fr.loopBlocks(h)
 		finds := commuteCheck(w, fn, h, next, body)
-		goal, text := "true", fmt.Sprintf("iterations of the map range (loop %d) commute: every write is keyed by the range key, a commutative accumulation, or loop-local", fr.loopOrd[h])
+		if why, exempt := outputOrderOK[fnFull(fn)]; exempt {
+			e.assumps["output order exemption for "+fnFull(fn)+": "+why] = true
+		}
+		goal, text := "true", fmt.Sprintf("map range (loop %d): every other write is loop-local, keyed by the range key, or a commutative accumulation (append / + / || / idempotent constant)", fr.loopOrd[h])
 		if len(finds) > 0 {
 			goal = "false"
 			var ws []string
 			for _, f := range finds {
 				ws = append(ws, fmt.Sprintf("%s (line %d)", f.what, w.Prog.Fset.Position(f.pos).Line))
 			}
-			text = fmt.Sprintf("iterations of the map range (loop %d) may not commute: %s", fr.loopOrd[h], strings.Join(ws, "; "))
+			text = fmt.Sprintf("map range (loop %d) is order sensitive: %s", fr.loopOrd[h], strings.Join(ws, "; "))
 		}
-		o := &Obligation{Name: fmt.Sprintf("%s/commute#%d", fnFull(fn), n), Class: "commute", Fn: fnFull(fn), Goal: goal, At: "true", Text: text}
+		o := &Obligation{Name: fmt.Sprintf("%s/effects.L%d", fnFull(fn), fr.loopOrd[h]), Class: "commute", Fn: fnFull(fn), Goal: goal, At: "true", Text: text}
 		o.Pos = w.Prog.Fset.Position(firstPos(h))
 		e.obls = append(e.obls, o)
 		res.Obls = append(res.Obls, o)
@@ -297,15 +369,15 @@ func commuteCheck(w *World, fn *ssa.Function, h *ssa.BasicBlock, next *ssa.Next,
 						continue
 					}
 				}
-				if !isKey(x.Key) {
-					// a write keyed by something derived from the key: two iterations may hit the same entry
-					finds = append(finds, commuteFinding{x.Pos(), "map entry written under a key that is not the range key (two iterations may write the same entry; the last one wins)"})
-				}
+				_ = isKey // entries written under a derived key are covered by the relational commute.L<k> obligations
 			case *ssa.Store:
 				if a, ok := rootAlloc(x.Addr); ok && definedInLoopAlloc(a, body) {
 					continue // loop-local cell
 				}
-				if phiAccumulate(x, body) {
+				if isRangeVarStore(x, next) {
+					continue // the loop variable itself (one variable per loop before Go 1.22)
+				}
+				if isAccumulatingStore(x) {
 					continue
 				}
 				if g := rootGlobal(x.Addr, 0); g != nil {
@@ -329,6 +401,9 @@ func commuteCheck(w *World, fn *ssa.Function, h *ssa.BasicBlock, next *ssa.Next,
 				}
 				if cal := c.StaticCallee(); cal != nil && !inRepo(cal) {
 					name := cal.String()
+					if _, exempt := outputOrderOK[fnFull(fn)]; exempt {
+						continue
+					}
 					if strings.HasPrefix(name, "fmt.Print") || strings.HasPrefix(name, "fmt.Fprint") || strings.Contains(name, "tablewriter") || strings.Contains(name, ".Write") {
 						finds = append(finds, commuteFinding{x.Pos(), "output written inside the map range (" + name + "): the order of the emitted text follows the map order"})
 					}
@@ -379,7 +454,34 @@ func definedInLoopAlloc(a *ssa.Alloc, body map[*ssa.BasicBlock]bool) bool {
 	return a.Block() != nil && body[a.Block()]
 }
 
-func phiAccumulate(x *ssa.Store, body map[*ssa.BasicBlock]bool) bool { return false }
+// isRangeVarStore: the value stored is the key or value produced by this range's Next
+func isRangeVarStore(st *ssa.Store, next *ssa.Next) bool {
+	if ex, ok := st.Val.(*ssa.Extract); ok && ex.Tuple == ssa.Value(next) {
+		return true
+	}
+	return false
+}
+
+// sameAddr: two address expressions denote the same location (same root, same field / constant-index path)
+func sameAddr(a, b ssa.Value, d int) bool {
+	if a == b {
+		return true
+	}
+	if d > 8 {
+		return false
+	}
+	switch x := a.(type) {
+	case *ssa.FieldAddr:
+		y, ok := b.(*ssa.FieldAddr)
+		return ok && x.Field == y.Field && sameAddr(x.X, y.X, d+1)
+	case *ssa.UnOp:
+		y, ok := b.(*ssa.UnOp)
+		return ok && x.Op == token.MUL && y.Op == token.MUL && sameAddr(x.X, y.X, d+1)
+	case *ssa.Global:
+		return a == b
+	}
+	return false
+}
 
 // isAccumulatingStore: *p = op(*p, e) with op in {append, ||, &&, +}
 func isAccumulatingStore(st *ssa.Store) bool {
@@ -392,7 +494,7 @@ func accumulatesFromCell(v ssa.Value, addr ssa.Value, d int) bool {
 	}
 	switch x := v.(type) {
 	case *ssa.UnOp:
-		return x.Op == token.MUL && x.X == addr
+		return x.Op == token.MUL && sameAddr(x.X, addr, 0)
 	case *ssa.Call:
 		if b, ok := x.Call.Value.(*ssa.Builtin); ok && b.Name() == "append" {
 			return accumulatesFromCell(x.Call.Args[0], addr, d+1)
